@@ -42,6 +42,6 @@ META = dict(
     design_ref="DESIGN.md §6 C14",
     note="Trusted: Lean kernel + 3 standard axioms; history generator (<= 12 runs over <= 4 objects per history); package-level state "
          "in the Go runtime or in cgo is outside the model.",
-    technique="Lean 4 proof (causality from scan structure) + history differential correspondence against a history-free model",
+    technique="Lean 4 proof (causality from scan structure) + history differential correspondence against a history-free model + regenerated structural facts as proof obligations with a race-detector probe for a witness",
 )
 READY = True
